@@ -130,7 +130,7 @@ def tables():
 
 
 def generate():
-    out = ["From Coq Require Import ZArith List String.", "Import ListNotations.", "Open Scope string_scope."]
+    out = ["From Coq Require Import ZArith List String.", "Import ListNotations.", "Local Open Scope string_scope."]
     tabs, why = astlib.try_flag(tables)
     if tabs is None:
         out.append("(* dispatch tables not recognised: %s *)" % why)
